@@ -30,7 +30,21 @@ impl Tracked {
 impl Drop for Tracked {
     fn drop(&mut self) {
         LIVE.with(|l| l.set(l.get() - 1));
+        // a destructor that writes labels (an RAII "scoped label" guard does this): when it runs during
+        // the teardown of an execution, what it writes must not be visible to the next execution
+        if DROP_LABELS.with(|d| d.get()) {
+            for t in 0..3usize {
+                shuttle::current::set_label_for_task(TaskId::from(t), DropLabel(self.0));
+            }
+        }
     }
+}
+
+#[derive(Clone, Debug)]
+struct DropLabel(#[allow(dead_code)] u32);
+
+thread_local! {
+    static DROP_LABELS: Cell<bool> = const { Cell::new(false) };
 }
 
 const T_ENTRY: u32 = 2000;
@@ -77,6 +91,11 @@ pub fn body(variant: usize) {
     body_event(T_ENTRY, 9, LZ2.load(std::sync::atomic::Ordering::SeqCst) as i64);
     let name = current::get_name_for_task(current::me()).map(|n| format!("{n:?}")).unwrap_or_default();
     body_event(T_ENTRY, 10, (name == "main-thread") as i64);
+    for t in 0..3usize {
+        body_event(T_ENTRY, 40 + t as i64, current::get_label_for_task::<DropLabel>(TaskId::from(t)).is_some() as i64);
+    }
+    // from here on, destructors of instrumented values write labels
+    DROP_LABELS.with(|d| d.set(variant % 2 == 0));
     for other in 1..4usize {
         // no residue for task ids of a previous execution
         body_event(T_ENTRY, 20 + other as u32 as i64, current::get_label_for_task::<MyLabel>(TaskId::from(other)).is_some() as i64);
@@ -228,7 +247,7 @@ fn run_isolation(variant: usize, k: usize, seed: u64, iters: usize, pred: Pred, 
             );
         }
         let obs = entry_obs(&f.log);
-        let expect: Vec<(i64, i64)> = vec![(0, 0), (4, live_before), (5, 0), (6, 0), (7, 0), (8, 0), (9, 0), (10, 1), (21, 0), (22, 0), (23, 0), (31, 0), (32, 0), (33, 0)];
+        let expect: Vec<(i64, i64)> = vec![(0, 0), (4, live_before), (5, 0), (6, 0), (7, 0), (8, 0), (9, 0), (10, 1), (21, 0), (22, 0), (23, 0), (31, 0), (32, 0), (33, 0), (40, 0), (41, 0), (42, 0)];
         for (key, want) in &expect {
             match obs.iter().find(|o| o.0 == *key) {
                 Some((_, got)) if got == want => {}
@@ -238,6 +257,7 @@ fn run_isolation(variant: usize, k: usize, seed: u64, iters: usize, pred: Pred, 
                         4 => "live values of the previous iteration",
                         5 => "Once already complete",
                         6 | 21 | 22 | 23 => "label present before being set",
+                        40 | 41 | 42 => "label written by a destructor of the previous execution",
                         7 | 31 | 32 | 33 => "tag present before being set",
                         8 => "thread-local already initialised",
                         9 => "lazy static already initialised",
